@@ -274,6 +274,8 @@ let read_lines path =
 let apply_oracle (name : string) (sc : scenario) (o : observation) : bool option =
   match name with
   | "c01" -> Some (c01_oracle o)
+  | "c02" -> c02_oracle sc o
+  | "c02loc" -> c02_loc_oracle sc o
   | _ -> failwith ("unknown oracle " ^ name)
 
 let oracle name scen_file obs_file =
